@@ -47,9 +47,12 @@ pub enum Api {
     /// number of cells than they received, as a colouring option does: only "returns", the sequence of line numbers handed to
     /// the number callback and the texts handed to the span callback are judged
     Decor = 4,
+    /// `write!(sim_writer, "{:>40}" | "{:#}" | "{:.3}" | "{:^7}" | "{:08}" | "{:<1$}", x)`: Display through a Formatter that
+    /// carries width / fill / precision / alternate flags. Only "returns Ok without panicking" is judged.
+    Flags = 5,
 }
 impl Api {
-    pub const ALL: [Api; 5] = [Api::ToString, Api::WriteMacro, Api::Default, Api::Custom, Api::Decor];
+    pub const ALL: [Api; 6] = [Api::ToString, Api::WriteMacro, Api::Default, Api::Custom, Api::Decor, Api::Flags];
     pub fn name(&self) -> &'static str {
         match self {
             Api::ToString => "to_string",
@@ -57,6 +60,7 @@ impl Api {
             Api::Default => "display_default",
             Api::Custom => "custom",
             Api::Decor => "custom_decorating",
+            Api::Flags => "write_macro_with_format_flags",
         }
     }
     pub fn from_name(s: &str) -> Option<Api> {
@@ -293,6 +297,26 @@ pub fn execute(c: &Case, api: Api, plan: &Plan) -> Exec {
                 Obj::S(s) => write!(w, "{}", s).map(|_| None),
                 Obj::P(p) => write!(w, "{}", p).map(|_| None),
             },
+            Api::Flags => {
+                // which flags: a function of the case, so that a replay uses the same ones
+                let k = (c.text.len() + c.a * 3 + c.b * 7) % 6;
+                macro_rules! go {
+                    ($x:expr) => {
+                        match k {
+                            0 => write!(w, "{:>40}", $x),
+                            1 => write!(w, "{:#}", $x),
+                            2 => write!(w, "{:.3}", $x),
+                            3 => write!(w, "{:^7}", $x),
+                            4 => write!(w, "{:08}", $x),
+                            _ => write!(w, "{:<1$}", $x, 60000),
+                        }
+                    };
+                }
+                match &obj {
+                    Obj::S(s) => go!(s).map(|_| None),
+                    Obj::P(p) => go!(p).map(|_| None),
+                }
+            }
             Api::Default => match &obj {
                 Obj::S(s) => s.display(&mut w, Default::default()).map(|_| None),
                 Obj::P(p) => p.display(&mut w, Default::default()).map(|_| None),
